@@ -606,11 +606,12 @@ Proof.
   unfold evt_from. rewrite fold_left_app. cbn [fold_left]. fold (evt_from dt None obs).
   destruct obs as [|o' obs'].
   - cbn [evt_from fold_left ev_fold_t]. eexists; split; [reflexivity|]. split; [apply map_length|].
-    intros u. change (@None (T RN)) with (ev_fold RN dt false None) at 1. rewrite map_nth. reflexivity.
+    intros u. exact (map_nth (fun o0 => ev_fold RN dt o0 None) o false u).
   - destruct (IH ltac:(discriminate) Hf) as [l [El [Ll Hl]]]. rewrite El. cbn [ev_fold_t].
     eexists; split; [reflexivity|]. split; [rewrite map2_length; lia|].
     intros u. unfold unit_hist. rewrite map_app. cbn [map]. rewrite ev_peek_snoc by discriminate.
-    fold (unit_hist u (o' :: obs')). rewrite <- Hl.
+    change (nth u o' false :: map (fun o0 : list bool => nth u o0 false) obs') with (unit_hist u (o' :: obs')).
+    rewrite <- Hl.
     apply (nth_map2 (fun o0 s => ev_fold RN dt o0 (Some s)) o l false None None u); [lia | reflexivity].
 Qed.
 
@@ -645,7 +646,7 @@ Qed.
 (* t_delta of a receptive pair as the statement of the property has it: from the TRUE spike times of the two units *)
 Definition spec_tdelta (hpre hpost : list bool) (d : R) : nvR :=
   match c_tr RN c with
-  | TKernel _ _ => true_tdelta (c_dt RN c) hpre hpost 0
+  | TKernel _ _ _ => true_tdelta (c_dt RN c) hpre hpost 0
   | _ => true_tdelta (c_dt RN c) hpre hpost d
   end.
 Definition spec_tds (is : list (stepin RN)) (s : synapse) (d : R) : list (list nvR) :=
@@ -675,10 +676,10 @@ Proof.
   { apply Forall_map. eapply Forall_impl; [|exact Hs]. intros a [H _]; exact H. }
   assert (Hpost : Forall (fun o => length o = m) (map (si_post RN) (prefix ++ [i]))).
   { apply Forall_map. eapply Forall_impl; [|exact Hs]. intros a [_ H]; exact H. }
-  destruct (evt_from_units (c_dt RN c) n _ ltac:(rewrite map_app; intros E; apply app_eq_nil in E; destruct E; discriminate) Hpre)
-    as [lp [Ep [_ Hp]]].
-  destruct (evt_from_units (c_dt RN c) m _ ltac:(rewrite map_app; intros E; apply app_eq_nil in E; destruct E; discriminate) Hpost)
-    as [lq [Eq [_ Hq]]].
+  assert (Nn : forall (f : stepin RN -> list bool), map f (prefix ++ [i]) <> []).
+  { intros f. rewrite map_app. intros E. apply app_eq_nil in E. destruct E; discriminate. }
+  destruct (evt_from_units (c_dt RN c) n _ (Nn _) Hpre) as [lp [Ep [_ Hp]]].
+  destruct (evt_from_units (c_dt RN c) m _ (Nn _) Hpost) as [lq [Eq [_ Hq]]].
   unfold evt_from in Ep, Eq. rewrite map_app, fold_left_app in Ep, Eq. cbn [map fold_left] in Ep, Eq.
   unfold evt_from. inversion Ep as [Ep']. inversion Eq as [Eq']. clear Ep Eq.
   apply map2_ext. intros s d. f_equal. unfold tds_of, spec_tds. apply map_ext. intros b. apply map_ext. intros io.
@@ -690,3 +691,369 @@ Proof.
   rewrite <- tdelta_adj_zero. apply tdelta_model_true. apply HL.
 Qed.
 End Cell.
+
+(* ---- zero delay *)
+Definition zero_delays (i : stepin RN) : Prop := Forall (fun d => d = 0) (si_delay RN i).
+Definition parts_eqv (p q : parts RN) : Prop :=
+  part_val RN (fst p) = part_val RN (fst q) /\ part_val RN (snd p) = part_val RN (snd q).
+
+Lemma Forall2_map2 {A B C : Type} (P : C -> C -> Prop) (f g : A -> B -> C) la lb :
+  (forall a b, In b lb -> P (f a b) (g a b)) -> Forall2 P (map2 f la lb) (map2 g la lb).
+Proof.
+  revert lb; induction la as [|a t IH]; intros lb H; [constructor|]. destruct lb as [|b lb]; [constructor|].
+  cbn. constructor; [apply H; left; reflexivity|]. apply IH. intros; apply H; right; assumption.
+Qed.
+Lemma map2_ext_r {A B C : Type} (f g : A -> B -> C) la lb :
+  (forall a b, In b lb -> f a b = g a b) -> map2 f la lb = map2 g la lb.
+Proof.
+  revert lb; induction la as [|a t IH]; intros lb H; [reflexivity|]. destruct lb as [|b lb]; [reflexivity|].
+  cbn. rewrite H by (left; reflexivity). rewrite IH; [reflexivity|]. intros; apply H; right; assumption.
+Qed.
+
+Lemma tds_zero_delay B npre npost syn dt (tr1 tr2 : trainer RN) pre post s :
+  (forall a b, tdelta_of RN tr1 a b 0 = tdelta_of RN tr2 a b 0) ->
+  tds_of RN (mkCfg RN B npre npost syn dt tr1) pre post s 0 = tds_of RN (mkCfg RN B npre npost syn dt tr2) pre post s 0.
+Proof. intros H. unfold tds_of. cbn [c_B c_npre c_npost c_tr]. apply map_ext; intros b. apply map_ext; intros io. apply H. Qed.
+
+(* DelayAdjustedKernelSTDP on a connection whose delays are all zero IS KernelSTDP: same monitors, same parts, at
+   every step of every run (any kernels, any reduction) *)
+Theorem zero_delay_reduces_to_kernel red B npre npost syn dt kpost kpre st is :
+  Forall zero_delays is ->
+  cell_run RN red (mkCfg RN B npre npost syn dt (TDaKernel RN kpost kpre)) st is =
+  cell_run RN red (mkCfg RN B npre npost syn dt (TKernel RN kpost kpre)) st is.
+Proof.
+  revert st; induction is as [|i t IH]; intros st Hz; [reflexivity|]. inversion Hz as [|? ? Hi Ht]; subst.
+  cbn [cell_run]. 
+  assert (E : cell_step RN red (mkCfg RN B npre npost syn dt (TDaKernel RN kpost kpre)) st i =
+              cell_step RN red (mkCfg RN B npre npost syn dt (TKernel RN kpost kpre)) st i).
+  { unfold cell_step. cbn [c_dt c_syn c_tr]. f_equal. apply map2_ext_r. intros s d Hd.
+    unfold zero_delays in Hi. rewrite Forall_forall in Hi. rewrite (Hi d Hd).
+    rewrite (tds_zero_delay B npre npost syn dt (TDaKernel RN kpost kpre) (TKernel RN kpost kpre)).
+    - destruct (si_sig RN i); reflexivity.
+    - intros a b. apply tdelta_adj_zero. }
+  rewrite E. f_equal. apply IH. exact Ht.
+Qed.
+
+(* ... and the dedicated rule DelayAdjustedSTDP at zero delay is KernelSTDP with the shipped exponential kernels *)
+Theorem zero_delay_da_stdp_is_kernel_stdp red B npre npost syn dt lr_pos lr_neg tc_pos tc_neg st is :
+  homog red -> tc_pos <> 0 -> tc_neg <> 0 -> Forall zero_delays is ->
+  Forall2 (fun r1 r2 => fst r1 = fst r2 /\ Forall2 parts_eqv (snd r1) (snd r2))
+    (cell_run RN red (mkCfg RN B npre npost syn dt (TDaStdp RN lr_pos lr_neg tc_pos tc_neg)) st is)
+    (cell_run RN red (mkCfg RN B npre npost syn dt
+                        (TKernel RN (fun x => exp_stdp_post_kernel RN x lr_pos tc_pos)
+                                    (fun x => exp_stdp_pre_kernel RN x lr_neg tc_neg))) st is).
+Proof.
+  intros Hh Hp Hn. revert st; induction is as [|i t IH]; intros st Hz; [constructor|].
+  inversion Hz as [|? ? Hi Ht]; subst. cbn [cell_run]. constructor.
+  - split; [reflexivity|]. unfold cell_step. cbn [snd c_dt c_syn c_tr]. apply Forall2_map2. intros s d Hd.
+    unfold zero_delays in Hi. rewrite Forall_forall in Hi. rewrite (Hi d Hd).
+    rewrite (tds_zero_delay B npre npost syn dt (TDaStdp RN lr_pos lr_neg tc_pos tc_neg)
+               (TKernel RN (fun x => exp_stdp_post_kernel RN x lr_pos tc_pos)
+                           (fun x => exp_stdp_pre_kernel RN x lr_neg tc_neg)))
+      by (intros a b; apply tdelta_adj_zero).
+    unfold parts_eqv.
+    destruct (kernel_eq_delayadjusted red lr_pos lr_neg tc_pos tc_neg
+                (tds_of RN (mkCfg RN B npre npost syn dt
+                        (TKernel RN (fun x => exp_stdp_post_kernel RN x lr_pos tc_pos)
+                                    (fun x => exp_stdp_pre_kernel RN x lr_neg tc_neg)))
+                        (ev_fold_t RN dt (si_pre RN i) (cs_pre RN st)) (ev_fold_t RN dt (si_post RN i) (cs_post RN st)) s 0)
+                Hh Hp Hn) as [E1 E2].
+    cbv zeta in E1, E2. destruct (si_sig RN i); cbn [fwd]; split; congruence.
+  - apply IH. exact Ht.
+Qed.
+
+(* ================================================================== no change while either side has not spiked yet *)
+Definition zero_red (red : list R -> R) : Prop := forall l, Forall (fun x => x = 0) l -> red l = 0.
+Definition all_nan (tds : list (list nvR)) : Prop := Forall (Forall (fun v : nvR => v = None)) tds.
+
+Lemma all_zero_map0 l : Forall (fun x => x = 0) l -> map (Rmult 0) l = l.
+Proof. induction 1 as [|x t Hx _ IH]; [reflexivity|]. cbn. rewrite IH, Hx. f_equal. ring. Qed.
+Lemma homog_zero_red red : homog red -> zero_red red.
+Proof. intros Hh l Hl. rewrite <- (all_zero_map0 l Hl), Hh. ring. Qed.
+Lemma amax_zero_red : zero_red (reduce RN RAmax).
+Proof.
+  intros l Hl. cbn [reduce]. destruct l as [|x t]; [reflexivity|]. inversion Hl as [|? ? Hx Ht]; subst.
+  clear Hl. induction t as [|y t IH]; [reflexivity|]. inversion Ht as [|? ? Hy Ht']; subst. cbn [fold_left].
+  unfold tmax at 2. rn_simpl. destruct (Rltb'_spec 0 0); [lra|]. apply IH. exact Ht'.
+Qed.
+
+Lemma nansum_all_nan (f : nvR -> nvR) row :
+  (f None = None) -> Forall (fun v : nvR => v = None) row -> nansum RN (map f row) = 0.
+Proof.
+  intros Hf Hr. unfold nansum. induction Hr as [|v t Hv _ IH]; [reflexivity|]. cbn. rewrite Hv, Hf. cbn. rn_simpl.
+  change (T RN) with R in *. rewrite IH. lra.
+Qed.
+Lemma rsum_all_nan red f tds : zero_red red -> f None = None -> all_nan tds -> rsum RN red f tds = 0.
+Proof.
+  intros Hz Hf Ha. unfold rsum. apply Hz. apply Forall_map. eapply Forall_impl; [|exact Ha].
+  intros row Hr. apply nansum_all_nan; assumption.
+Qed.
+Lemma select_all_zero {A : Type} (m : list bool) (l : list R) :
+  Forall (fun x => x = 0) l -> Forall (fun x => x = 0) (select m l).
+Proof.
+  intros Hl. revert m; induction Hl as [|x t Hx _ IH]; intros m; destruct m as [|b m]; cbn; try constructor.
+  destruct b; [constructor; [exact Hx | apply IH] | apply IH].
+Qed.
+Lemma scaled_rows_all_nan f ss scale tds : f None = None -> all_nan tds ->
+  Forall (fun x => x = 0) (scaled_rows RN f ss scale tds).
+Proof.
+  intros Hf Ha. unfold scaled_rows. revert ss; induction Ha as [|row t Hr _ IH]; intros ss; destruct ss; cbn; constructor.
+  - rewrite nansum_all_nan by assumption. rn_simpl. ring.
+  - apply IH.
+Qed.
+Lemma part_val_red_opt_zero red l : zero_red red -> Forall (fun x => x = 0) l -> part_val RN (red_opt RN red l) = 0.
+Proof. intros Hz Hl. destruct l; [reflexivity|]. cbn. apply Hz. exact Hl. Qed.
+
+(* for EVERY trainer (any kernels that map NaN to NaN are covered by the model's option_map), every sign mode, every
+   signal: if no receptive pair of the element has t_delta defined - i.e. for each pair the presynaptic or the
+   postsynaptic unit has not spiked yet - both accumulated parts are zero (or absent), so update() changes nothing *)
+Theorem no_change_before_both_spiked red tr sg tds :
+  zero_red red -> all_nan tds ->
+  part_val RN (fst (fwd RN red tr sg tds)) = 0 /\ part_val RN (snd (fwd RN red tr sg tds)) = 0.
+Proof.
+  intros Hz Ha.
+  assert (Hd : forall tc lr cz, rsum RN red (da_term RN tc lr cz) tds = 0)
+    by (intros; apply rsum_all_nan; [exact Hz | reflexivity | exact Ha]).
+  assert (Hk1 : forall k, rsum RN red (fun v => clamp_min0 RN (option_map k v)) tds = 0)
+    by (intros; apply rsum_all_nan; [exact Hz | reflexivity | exact Ha]).
+  assert (Hk2 : forall k, rsum RN red (fun v => clamp_max0 RN (option_map k v)) tds = 0)
+    by (intros; apply rsum_all_nan; [exact Hz | reflexivity | exact Ha]).
+  assert (Hs : forall tc lr cz ss sc m, Forall (fun x => x = 0) (select m (scaled_rows RN (da_term RN tc lr cz) ss sc tds)))
+    by (intros; apply (@select_all_zero unit); apply scaled_rows_all_nan; [reflexivity | exact Ha]).
+  assert (Hs2 : forall l1 l2, Forall (fun x => x = 0) l1 -> Forall (fun x => x = 0) l2 ->
+                              part_val RN (red_opt RN red (l1 ++ l2)) = 0)
+    by (intros; apply part_val_red_opt_zero; [exact Hz | apply Forall_app; split; assumption]).
+  destruct tr; destruct sg; cbn [fwd fst snd part_val]; try (split; reflexivity);
+    unfold da_stdp, da_stdpd, kernel_fwd, da_mstdp_scalar, da_mstdpd_scalar, da_mstdp_tensor, da_mstdpd_tensor;
+    rewrite ?Hd, ?Hk1, ?Hk2;
+    repeat match goal with |- context [if ?b then _ else _] => destruct b end;
+    cbn [fst snd part_val]; rn_simpl; rewrite ?Hs2 by apply Hs; split; try reflexivity; try ring.
+Qed.
+
+(* with the true spike times: a pair whose presynaptic or postsynaptic unit never spiked has no t_delta *)
+Lemma true_tdelta_never dt hpre hpost d : never hpre \/ never hpost -> true_tdelta dt hpre hpost d = None.
+Proof.
+  intros [H|H]; apply last_true_never in H; unfold true_tdelta; rewrite H; [reflexivity|].
+  destruct (last_true hpre); reflexivity.
+Qed.
+
+(* ================================================================== the documented rule, all dedicated trainers at once *)
+(* docstring formulas: net change of one parameter element, from its t_delta values [batch][receptive] *)
+Definition documented_net (red : list R -> R) (tr : trainer RN) (sg : signal RN) (tds : list (list nvR)) : option R :=
+  match tr, sg with
+  | TDaStdp _ lp ln tp tn, _ => Some (red (map (rule_row lp tp ln tn) tds))
+  | TDaStdpD _ ln lp tn tp, _ => Some (red (map (rule_row ln tn lp tp) tds))
+  | TDaMstdp _ lp ln tp tn, SigScalar _ s sc => Some (Rabs sc * s * red (map (rule_row lp tp ln tn) tds))
+  | TDaMstdpD _ ln lp tn tp, SigScalar _ s sc => Some (Rabs sc * s * red (map (rule_row ln tn lp tp) tds))
+  | TDaMstdp _ lp ln tp tn, SigTensor _ ss sc =>
+      Some (tsum RN (map2 (fun row s => Rabs sc * s * rule_row lp tp ln tn row) tds ss))
+  | TDaMstdpD _ ln lp tn tp, SigTensor _ ss sc =>
+      Some (tsum RN (map2 (fun row s => Rabs sc * s * rule_row ln tn lp tp row) tds ss))
+  | _, _ => None                 (* kernel trainers: [kernel_exp_rule] *)
+  end.
+Definition tcs_nonzero (tr : trainer RN) : Prop :=
+  match tr with
+  | TDaStdp _ _ _ a b | TDaStdpD _ _ _ a b | TDaMstdp _ _ _ a b | TDaMstdpD _ _ _ a b => a <> 0 /\ b <> 0
+  | _ => True
+  end.
+(* sum and mean for the batch-reduced forms; the per-sample signal form is stated for the sum (the trainers' default) *)
+Definition red_ok (red : list R -> R) (sg : signal RN) : Prop :=
+  match sg with SigTensor _ _ _ => red = reduce RN RSum | _ => linear_red red end.
+
+Theorem rule_formula red tr sg tds v :
+  documented_net red tr sg tds = Some v -> tcs_nonzero tr -> red_ok red sg ->
+  net RN (fwd RN red tr sg tds) = v.
+Proof.
+  intros Hv Ht Hr.
+  destruct tr as [lp ln tp tn|ln lp tn tp|kp kq|kp kq|lp ln tp tn|ln lp tn tp]; destruct sg as [|s sc|ss sc];
+    cbn [documented_net] in Hv; inversion Hv; subst; clear Hv; cbn [tcs_nonzero] in Ht; cbn [red_ok] in Hr;
+    try destruct Ht as [Ha Hb]; cbn [fwd].
+  - apply da_stdp_rule; assumption.
+  - apply da_stdp_rule; assumption.
+  - subst red. apply da_stdp_rule; [apply sum_linear | assumption | assumption].
+  - apply da_stdpd_rule; assumption.
+  - apply da_stdpd_rule; assumption.
+  - subst red. apply da_stdpd_rule; [apply sum_linear | assumption | assumption].
+  - apply da_mstdp_scalar_rule; assumption.
+  - subst red. apply da_mstdp_tensor_rule; assumption.
+  - apply da_mstdpd_scalar_rule; assumption.
+  - subst red. apply da_mstdpd_tensor_rule; assumption.
+Qed.
+
+Lemma map_map2 {A B C D : Type} (g : C -> D) (f : A -> B -> C) la lb :
+  map g (map2 f la lb) = map2 (fun a b => g (f a b)) la lb.
+Proof.
+  revert lb; induction la as [|a t IH]; intros lb; [reflexivity|]. destruct lb; [reflexivity|]. cbn. rewrite IH. reflexivity.
+Qed.
+
+(* FLAGSHIP (composition): at every step of every run of a cell trained by a dedicated delay-adjusted rule, the net
+   change pos - neg of every parameter element is the documented function of t_delta = t_post_last - t_pre_last - d(t)
+   evaluated at the true most recent spike times of its receptive pairs *)
+Theorem run_rule_formula red c n m prefix i :
+  shaped n m (prefix ++ [i]) -> tcs_nonzero (c_tr RN c) -> red_ok red (si_sig RN i) ->
+  (forall tds, documented_net red (c_tr RN c) (si_sig RN i) tds <> None) ->
+  map (fun p => Some (net RN p)) (snd (cell_step RN red c (state_after red c (mkCS RN None None) prefix) i)) =
+  map2 (fun s d => documented_net red (c_tr RN c) (si_sig RN i) (spec_tds c (prefix ++ [i]) s d))
+       (c_syn RN c) (si_delay RN i).
+Proof.
+  intros Hs Ht Hr Hd. rewrite (cell_step_true_times red c n m prefix i Hs), map_map2. apply map2_ext. intros s d.
+  destruct (documented_net red (c_tr RN c) (si_sig RN i) (spec_tds c (prefix ++ [i]) s d)) as [v|] eqn:E;
+    [|exfalso; exact (Hd _ E)].
+  f_equal. apply rule_formula; assumption.
+Qed.
+
+(* the same for the kernel trainers run with the generated exponential half kernels *)
+Theorem run_kernel_exp_rule red c n m prefix i lr_c tc_c lr_a tc_a adjusted :
+  c_tr RN c = (if adjusted : bool then TDaKernel RN else TKernel RN)
+                (fun x => exp_stdp_post_kernel RN x lr_c tc_c) (fun x => exp_stdp_pre_kernel RN x lr_a tc_a) ->
+  shaped n m (prefix ++ [i]) -> linear_red red -> tc_c <> 0 -> tc_a <> 0 ->
+  map (net RN) (snd (cell_step RN red c (state_after red c (mkCS RN None None) prefix) i)) =
+  map2 (fun s d => red (map (rule_row lr_c tc_c lr_a tc_a) (spec_tds c (prefix ++ [i]) s d)))
+       (c_syn RN c) (si_delay RN i).
+Proof.
+  intros Hc Hs Hl Ha Hb. rewrite (cell_step_true_times red c n m prefix i Hs), map_map2. apply map2_ext. intros s d.
+  rewrite Hc. destruct adjusted; destruct (si_sig RN i); cbn [fwd]; apply kernel_exp_rule; assumption.
+Qed.
+
+(* and no change while silent, at the level of the run: if for every sample and every receptive pair of the element
+   the presynaptic or the postsynaptic unit has not spiked so far, both parts are zero *)
+Theorem run_no_change_before_both_spiked red c n m prefix i s d :
+  shaped n m (prefix ++ [i]) -> zero_red red ->
+  (forall b io, In io s ->
+     never (unit_hist (b * c_npre RN c + fst io) (map (si_pre RN) (prefix ++ [i]))) \/
+     never (unit_hist (b * c_npost RN c + snd io) (map (si_post RN) (prefix ++ [i])))) ->
+  let p := fwd RN red (c_tr RN c) (si_sig RN i) (spec_tds c (prefix ++ [i]) s d) in
+  part_val RN (fst p) = 0 /\ part_val RN (snd p) = 0.
+Proof.
+  intros Hs Hz Hn. cbv zeta. apply no_change_before_both_spiked; [exact Hz|].
+  unfold all_nan, spec_tds. apply Forall_map. apply Forall_forall. intros b _. apply Forall_map. apply Forall_forall.
+  intros io Hio. unfold spec_tdelta. destruct (c_tr RN c); apply true_tdelta_never; apply Hn; exact Hio.
+Qed.
+
+(* ================================================================== parts: routing by sign, non-negativity *)
+(* which half goes to which part: the potentiating part collects the halves with a non-negative learning rate *)
+Theorem da_stdp_parts red lr_pos lr_neg tc_pos tc_neg tds : homog red -> tc_pos <> 0 -> tc_neg <> 0 ->
+  let d := da_stdp RN red lr_pos lr_neg tc_pos tc_neg tds in
+  part_val RN (fst d) = pospart lr_pos * wsum red true tc_pos tds + pospart lr_neg * wsum red false tc_neg tds /\
+  part_val RN (snd d) = - (negpart lr_pos * wsum red true tc_pos tds + negpart lr_neg * wsum red false tc_neg tds).
+Proof.
+  intros Hh Hp Hn. cbv zeta.
+  destruct (kernel_eq_delayadjusted red lr_pos lr_neg tc_pos tc_neg tds Hh Hp Hn) as [E1 E2].
+  destruct (kernel_fwd_exp_parts red lr_pos tc_pos lr_neg tc_neg tds Hh Hp Hn) as [F1 F2].
+  cbv zeta in *. rewrite <- E1, <- E2. split; assumption.
+Qed.
+Theorem da_stdpd_parts red lr_neg lr_pos tc_neg tc_pos tds : homog red -> tc_pos <> 0 -> tc_neg <> 0 ->
+  let d := da_stdpd RN red lr_neg lr_pos tc_neg tc_pos tds in
+  part_val RN (fst d) = pospart lr_neg * wsum red true tc_neg tds + pospart lr_pos * wsum red false tc_pos tds /\
+  part_val RN (snd d) = - (negpart lr_neg * wsum red true tc_neg tds + negpart lr_pos * wsum red false tc_pos tds).
+Proof.
+  intros Hh Hp Hn. cbv zeta.
+  destruct (kernel_eq_delayadjusted_delays red lr_neg lr_pos tc_neg tc_pos tds Hh Hp Hn) as [E1 E2].
+  destruct (kernel_fwd_exp_parts red lr_neg tc_neg lr_pos tc_pos tds Hh Hn Hp) as [F1 F2].
+  cbv zeta in *. rewrite <- E1, <- E2. split; assumption.
+Qed.
+
+(* both parts are non-negative for every trainer, every kernel, every signal: needs only that the batch reduction keeps
+   signs (sum, mean, amax all do) *)
+Definition sign_red (red : list R -> R) : Prop :=
+  (forall l, Forall (fun x => 0 <= x) l -> 0 <= red l) /\ (forall l, Forall (fun x => x <= 0) l -> red l <= 0).
+
+Lemma tsum_nonneg l : Forall (fun x => 0 <= x) l -> 0 <= tsum RN l.
+Proof. induction 1 as [|x t Hx _ IH]; cbn; rn_simpl; change (T RN) with R in *; lra. Qed.
+Lemma tsum_nonpos l : Forall (fun x => x <= 0) l -> tsum RN l <= 0.
+Proof. induction 1 as [|x t Hx _ IH]; cbn; rn_simpl; change (T RN) with R in *; lra. Qed.
+Lemma sum_sign_red : sign_red (reduce RN RSum).
+Proof. split; [apply tsum_nonneg | apply tsum_nonpos]. Qed.
+Lemma mean_sign_red : sign_red (reduce RN RMean).
+Proof.
+  split; intros l Hl; cbn [reduce]; rn_simpl; rewrite <- INR_IZR_INZ.
+  - pose proof (tsum_nonneg l Hl). pose proof (pos_INR (length l)). unfold Rdiv.
+    destruct (Req_dec (INR (length l)) 0) as [E|E]; [rewrite E, Rinv_0; lra|].
+    apply Rmult_le_pos; [assumption|]. left. apply Rinv_0_lt_compat. lra.
+  - pose proof (tsum_nonpos l Hl). pose proof (pos_INR (length l)). unfold Rdiv.
+    destruct (Req_dec (INR (length l)) 0) as [E|E]; [rewrite E, Rinv_0; lra|].
+    assert (0 < / INR (length l)) by (apply Rinv_0_lt_compat; lra). nra.
+Qed.
+Lemma amax_sign_red : sign_red (reduce RN RAmax).
+Proof.
+  assert (G : forall (P : R -> Prop), (forall a b, P a -> P b -> P (tmax RN a b)) ->
+              forall t x, P x -> Forall P t -> P (fold_left (tmax RN) t x)).
+  { intros P HP t. induction t as [|y t IH]; intros x Hx Ht; [exact Hx|]. inversion Ht; subst. cbn. apply IH; [apply HP|]; assumption. }
+  split; intros l Hl; cbn [reduce]; (destruct l as [|x t]; [rn_simpl; lra|]); inversion Hl; subst.
+  - apply (G (fun x => 0 <= x)); try assumption. intros a b Ha Hb. unfold tmax. rn_simpl. destruct (Rltb' a b); assumption.
+  - apply (G (fun x => x <= 0)); try assumption. intros a b Ha Hb. unfold tmax. rn_simpl. destruct (Rltb' a b); assumption.
+Qed.
+
+Lemma nansum_nonneg (f : nvR -> nvR) row : (forall v x, f v = Some x -> 0 <= x) -> 0 <= nansum RN (map f row).
+Proof.
+  intros Hf. unfold nansum. apply tsum_nonneg. rewrite map_map. apply Forall_map. apply Forall_forall. intros v _.
+  destruct (f v) as [x|] eqn:E; cbn; rn_simpl; [eapply Hf; exact E | lra].
+Qed.
+Lemma nansum_nonpos (f : nvR -> nvR) row : (forall v x, f v = Some x -> x <= 0) -> nansum RN (map f row) <= 0.
+Proof.
+  intros Hf. unfold nansum. apply tsum_nonpos. rewrite map_map. apply Forall_map. apply Forall_forall. intros v _.
+  destruct (f v) as [x|] eqn:E; cbn; rn_simpl; [eapply Hf; exact E | lra].
+Qed.
+Lemma da_term_nonneg tc lr cz v x : da_term RN tc lr cz v = Some x -> 0 <= x.
+Proof.
+  destruct v as [td|]; [|discriminate]. cbn. intros H; inversion H; subst; clear H. rn_unfold.
+  pose proof (exp_pos (Rabs td / - tc)). pose proof (Rabs_pos lr).
+  destruct cz; [destruct (Rleb' 0 td) | destruct (Rltb' td 0)]; nra.
+Qed.
+Lemma rsum_nonneg red f tds : sign_red red -> (forall v x, f v = Some x -> 0 <= x) -> 0 <= rsum RN red f tds.
+Proof.
+  intros [Hs _] Hf. unfold rsum. apply Hs. apply Forall_map. apply Forall_forall. intros row _. apply nansum_nonneg. exact Hf.
+Qed.
+Lemma rsum_nonpos red f tds : sign_red red -> (forall v x, f v = Some x -> x <= 0) -> rsum RN red f tds <= 0.
+Proof.
+  intros [_ Hs] Hf. unfold rsum. apply Hs. apply Forall_map. apply Forall_forall. intros row _. apply nansum_nonpos. exact Hf.
+Qed.
+Lemma select_nonneg (m : list bool) (l : list R) : Forall (fun x => 0 <= x) l -> Forall (fun x => 0 <= x) (select m l).
+Proof.
+  intros Hl. revert m; induction Hl as [|x t Hx _ IH]; intros m; destruct m as [|b m]; cbn; try constructor.
+  destruct b; [constructor; [exact Hx | apply IH] | apply IH].
+Qed.
+Lemma scaled_rows_nonneg f ss scale tds : (forall v x, f v = Some x -> 0 <= x) ->
+  Forall (fun x => 0 <= x) (scaled_rows RN f ss scale tds).
+Proof.
+  intros Hf. unfold scaled_rows. revert ss; induction tds as [|row t IH]; intros ss; destruct ss; cbn; constructor; [|apply IH].
+  rn_simpl. apply Rmult_le_pos; [apply nansum_nonneg; exact Hf | apply Rabs_pos].
+Qed.
+Lemma part_val_red_opt_nonneg red l : sign_red red -> Forall (fun x => 0 <= x) l -> 0 <= part_val RN (red_opt RN red l).
+Proof. intros [Hs _] Hl. destruct l; [cbn; rn_simpl; lra|]. cbn. apply Hs. exact Hl. Qed.
+
+Theorem parts_nonneg red tr sg tds : sign_red red ->
+  0 <= part_val RN (fst (fwd RN red tr sg tds)) /\ 0 <= part_val RN (snd (fwd RN red tr sg tds)).
+Proof.
+  intros Hs.
+  assert (Hd : forall tc lr cz, 0 <= rsum RN red (da_term RN tc lr cz) tds)
+    by (intros; apply rsum_nonneg; [exact Hs | apply da_term_nonneg]).
+  assert (Hk1 : forall k, 0 <= rsum RN red (fun v => clamp_min0 RN (option_map k v)) tds).
+  { intros k. apply rsum_nonneg; [exact Hs|]. intros [td|] x; [|discriminate]. cbn. intros H; inversion H; subst.
+    unfold tmax. rn_simpl. destruct (Rltb'_spec (k td) 0); lra. }
+  assert (Hk2 : forall k, rsum RN red (fun v => clamp_max0 RN (option_map k v)) tds <= 0).
+  { intros k. apply rsum_nonpos; [exact Hs|]. intros [td|] x; [|discriminate]. cbn. intros H; inversion H; subst.
+    unfold tmin. rn_simpl. destruct (Rltb'_spec 0 (k td)); lra. }
+  assert (Hsel : forall tc lr cz ss sc m l2, Forall (fun x => 0 <= x) l2 ->
+            0 <= part_val RN (red_opt RN red (select m (scaled_rows RN (da_term RN tc lr cz) ss sc tds) ++ l2))).
+  { intros. apply part_val_red_opt_nonneg; [exact Hs|]. apply Forall_app. split; [|assumption].
+    apply select_nonneg. apply scaled_rows_nonneg. apply da_term_nonneg. }
+  assert (Hsel0 : forall tc lr cz ss sc m, Forall (fun x => 0 <= x) (select m (scaled_rows RN (da_term RN tc lr cz) ss sc tds)))
+    by (intros; apply select_nonneg; apply scaled_rows_nonneg; apply da_term_nonneg).
+  pose proof Rabs_pos as Hab.
+  destruct tr; destruct sg; cbn [fwd fst snd part_val]; rn_simpl; try (split; lra);
+    unfold da_stdp, da_stdpd, kernel_fwd, da_mstdp_scalar, da_mstdpd_scalar, da_mstdp_tensor, da_mstdpd_tensor;
+    repeat match goal with |- context [if ?b then _ else _] => destruct b end;
+    cbn [fst snd part_val]; rn_simpl; split;
+    repeat match goal with
+           | |- 0 <= part_val RN (red_opt RN red (select _ _ ++ _)) => apply Hsel; apply Hsel0
+           | |- 0 <= _ + _ => apply Rplus_le_le_0_compat
+           | |- 0 <= _ * _ => apply Rmult_le_pos
+           | |- 0 <= rsum _ _ (da_term _ _ _ _) _ => apply Hd
+           | |- 0 <= rsum _ _ (fun v => clamp_min0 _ _) _ => apply Hk1
+           | |- 0 <= Rabs _ => apply Rabs_pos
+           | |- 0 <= 0 => lra
+           end;
+    try (match goal with |- 0 <= - (rsum _ _ (fun v => clamp_max0 _ (option_map ?a v)) _ + rsum _ _ (fun w => clamp_max0 _ (option_map ?b w)) _) =>
+           pose proof (Hk2 a); pose proof (Hk2 b); lra end).
+Qed.
